@@ -12,9 +12,8 @@ from pbt import docs, jsongen as jg, methods as hm, refserver as ref, serverharn
 from pbt.runner import Check, Disc, Outcome
 
 def registry_for(kind: str):
-    """the standard registry plus a class based view whose constructor raises (-> internal error, outside any method body)"""
-    return stdreg.std_registry(kind) + [{'name': 'bad.get', 'params': [stdreg.P('a', default=None)], 'flavour': 'aview' if kind == 'async' else 'view',
-                                        'ctx': 'view', 'ctor_raises': True}] 
+    """the standard registry (it contains a class based view whose constructor raises -> internal error, outside any method body)"""
+    return stdreg.std_registry(kind)
 
 
 HANDLER_CODES = [-32601, -32602, -32000, -32603, 7, 2001, stack.REPLACE_BASE, stack.REPLACE_BASE + 1, stack.REPLACE_BASE + 2]
@@ -28,7 +27,7 @@ class C12(Check):
     rule = (
         "cases: stacks of 0..3 middlewares of kinds pass-through / short-circuit / request-rewriting (other method and params, same id) / "
         "response-rewriting x error-handler tables (none, generic only, per-code only, both, up to 2 handlers per key; kinds identity / "
-        "annotate / replace-by-another-code; keys incl. the replacement codes themselves) x request documents over the 12-method registry "
+        "annotate / replace-by-another-code; keys incl. the replacement codes themselves) x request documents over the 14-method registry "
         "(successes, every failure class incl. an internal error raised outside the method body by a class based view's constructor, notifications, failing notifications, batches, rejected documents, non-JSON) x scripted method "
         "failures x sync / async dispatcher. Oracle: the reference server extended with the stack semantics predicts the response "
         "document, the executions and the exact event log (middleware enter events with method / id / params / context identity, handler "
